@@ -1002,6 +1002,87 @@ def model_format(text):
     raise ValueError(text)
 
 
+class _ModeIter(tuple):
+    """The Mode enum for module-level code of the format parser: iterable over members with .character."""
+
+    __hash__ = tuple.__hash__
+
+
+def module_env(ix, module, base):
+    """Module-level names of `module` that the entry functions may use: simple assignments evaluated by the
+    abstract evaluator in source order (what cannot be interpreted is left out and reported when used)."""
+    import re as _pyre
+
+    from . import symeval as S
+
+    def compile_(pat, flags=0):
+        rx = _pyre.compile(pat, flags)
+
+        def wrap(fn):
+            def call(text, *a):
+                if not isinstance(text, str):
+                    raise S.Uninterpretable("regular expression applied to a non-string")
+                m = fn(text, *a)
+                return None if m is None else S.Obj("match", group=lambda *g: m.group(*g), end=lambda: m.end(), start=lambda: m.start())
+
+            return call
+
+        return S.Obj("pattern", match=wrap(rx.match), fullmatch=wrap(rx.fullmatch), search=wrap(rx.search), pattern=pat)
+
+    env = dict(base)
+    env["re"] = S.Obj("re", compile=compile_, match=lambda p_, t, f=0: compile_(p_, f).attrs["match"](t), fullmatch=lambda p_, t, f=0: compile_(p_, f).attrs["fullmatch"](t))
+    tree = ix.module(module)
+    for st in tree.body:
+        if isinstance(st, (ast.Assign, ast.AnnAssign)) and st.value is not None:
+            tgt = st.targets[0] if isinstance(st, ast.Assign) else st.target
+            if not isinstance(tgt, ast.Name) or tgt.id.startswith("__"):
+                continue
+            ev = S.Evaluator(ast.parse("def _m(): pass").body[0], {}, env)
+            try:
+                env[tgt.id] = ev.ev(st.value, {})
+            except (S.Uninterpretable, S.Fork, S.Raised):
+                continue
+    return env
+
+
+def run_entry(ix, func_qual, grammar, parser_class, text, extra):
+    """Evaluate a parse_* function on `text` with <parser_class>.<nonterminal>.parse backed by the interpreted
+    grammar.  -> ('ok', value) | ('fail', error name) | ('raise', exception) | ('uninterpretable', why)."""
+    from . import symeval as S
+
+    def parser(nt):
+        def parse(t):
+            r = grammar.parse(nt, t)
+            if r[0] == "ok":
+                return S.Obj("Success", value=r[1])
+            if r[0] == "fail":
+                return S.Obj("Failure", error=S.Obj("Exception", name="ParseError"))
+            raise S.Raised(r[1])
+
+        return S.Obj("parser", parse=parse)
+
+    G = dict(extra)
+    G[parser_class] = S.Obj("ParserContext", **{nt: parser(nt) for nt in grammar.rules})
+    G["result"] = S.Obj("result", Failure=lambda e: S.Obj("Failure", error=e), Success=lambda v: S.Obj("Success", value=v))
+    G.setdefault("Failure", G["result"].attrs["Failure"])
+    G.setdefault("Success", G["result"].attrs["Success"])
+    fn = ix.func(func_qual).node
+    outs = list(S.explore_ev(fn, [text], {}, G))
+    if len(outs) != 1:
+        return ("uninterpretable", f"{len(outs)} outcomes")
+    kind, val = outs[0][1]
+    if kind == "raise":
+        return ("raise", val)
+    if kind == "uninterpretable":
+        return ("uninterpretable", val)
+    if isinstance(val, S.Obj) and val.tag == "Success":
+        return ("ok", val.attrs["value"])
+    if isinstance(val, S.Obj) and val.tag == "Failure":
+        e = val.attrs.get("error")
+        return ("fail", e.attrs.get("name") if isinstance(e, S.Obj) else repr(e))
+    return ("uninterpretable", f"returns {val!r}")
+
+
 def rule_grammar_semantics(ctx, ix, printed, printed_formats):
     """The grammars in the source are interpreted (vf/srules/grammar.py) and must mean what the reference
     reading means, string by string, on a corpus that contains every text the printers produce in the
@@ -1027,6 +1108,11 @@ def rule_grammar_semantics(ctx, ix, printed, printed_formats):
                 raise S.Raised(type(ex).__name__) from None
 
         return g
+
+    def S_exc(name):
+        from . import symeval as S
+
+        return lambda *a_, **k_: S.Obj("Exception", name=name)
 
     cons = {
         "Tensor": lambda name, indexes: ("Tensor", name, tuple(indexes)),
@@ -1055,7 +1141,11 @@ def rule_grammar_semantics(ctx, ix, printed, printed_formats):
 
     bad = {}
     n_ok = 0
+    penv = module_env(ix, P_MOD, {k: v for k, v in cons.items()}) if g is not None else {}
     if g is not None:
+        penv.update({f_.name: f_.node for q_, f_ in ix.funcs.items() if f_.module == P_MOD and q_ == f"{P_MOD}.{f_.name}"})
+        for en in ("MutatingAssignmentError", "InconsistentDimensionsError", "NameConflictError"):
+            penv.setdefault(en, S_exc(en))
         start_a = entry(f"{P_MOD}.parse_assignment", "assignment")
         # the nonterminal for a bare expression: the right-hand side of the assignment rule
         start_e = "expression" if "expression" in g.rules else None
@@ -1069,7 +1159,14 @@ def rule_grammar_semantics(ctx, ix, printed, printed_formats):
             except ValueError:
                 want = ("fail",)
             try:
-                got = g.parse(start, text)
+                if model is parse_model_assignment:
+                    got = run_entry(ix, f"{P_MOD}.parse_assignment", g, "TensorExpressionParsers", text, penv)
+                    if got[0] == "uninterpretable":
+                        raise Uninterpretable(got[1])
+                    if got[0] == "fail":
+                        got = ("fail", 0)
+                else:
+                    got = g.parse(start, text)
             except Uninterpretable as ex:
                 bad.setdefault(f"grammar not interpretable: {ex}"[:100], text)
                 continue
@@ -1081,7 +1178,7 @@ def rule_grammar_semantics(ctx, ix, printed, printed_formats):
             elif got[0] == "fail" and want[0] == "fail":
                 n_ok += 1
             elif got[0] == "raise":
-                bad.setdefault(f"a converter raises {got[1]} inside the parser", text)
+                bad.setdefault(f"parsing raises {got[1]} instead of returning a tree or a typed failure", repr(text))
             elif got[0] == "ok" and want[0] == "ok":
                 bad.setdefault("parses to a different tree than arithmetic reading gives", f"`{text}` -> {got[1]} (expected {want[1]})")
             elif got[0] == "ok":
@@ -1105,13 +1202,26 @@ def rule_grammar_semantics(ctx, ix, printed, printed_formats):
         return
     start_f = entry(f"{FP_MOD}.parse_format", "format")
     start_n = entry(f"{FP_MOD}.parse_named_format", "named_format")
-    fcorpus = list(dict.fromkeys(list(printed_formats) + ["", "d", "s", "ds", "sd", "d0", "d1", "d0s0", "d1s0", "s1d0", "d2s0d1", "d10s2", "d01", "ds1", "d1s", "x", "D", "d 0", " d", "d0 ", "d-1", "d0,s1", "dsd2"]))
+    from . import symeval as S_
+
+    mode_model = S_.Obj("ModeEnum", dense=("const", "Mode.dense"), compressed=("const", "Mode.compressed"))
+    mode_members = [S_.Obj("Mode", __structural__=True, character=m.character, name=m.name, const=("const", f"Mode.{m.name}")) for m in Mode]
+    fenv = module_env(ix, FP_MOD, {**fcons, "InvalidModeOrderingError": S_exc("InvalidModeOrderingError"), "Mode": _ModeIter(mode_members)})
+    fenv.update({f_.name: f_.node for q_, f_ in ix.funcs.items() if f_.module == FP_MOD and q_ == f"{FP_MOD}.{f_.name}"})
+    fcorpus = list(dict.fromkeys(list(printed_formats) + ["", "d", "s", "ds", "sd", "d0", "d1", "d0s0", "d1s0", "s1d0", "d2s0d1", "d10s2", "d01", "ds1", "d1s", "x", "D", "d 0", " d", "d0 ", "d-1", "d0,s1", "dsd2", "ds\n", "d\n", "\n", "ds\r\n", "d1s0\n", "\tds", "ds\n\n", "s\n"]))
     badf = {}
     nf_ok = 0
 
     def norm(v):
         if isinstance(v, tuple) and v and v[0] == "Format":
-            return ("Format", tuple(mode_name.get(m[1], m[1]) if isinstance(m, tuple) and m and m[0] == "const" else m for m in v[1]), tuple(v[2]))
+            def ch(m):
+                if isinstance(m, tuple) and m and m[0] == "const":
+                    return mode_name.get(m[1], m[1])
+                if hasattr(m, "attrs") and "character" in m.attrs:
+                    return m.attrs["character"]
+                return m
+
+            return ("Format", tuple(ch(m) for m in v[1]), tuple(v[2]))
         return v
 
     for text in fcorpus:
@@ -1122,7 +1232,11 @@ def rule_grammar_semantics(ctx, ix, printed, printed_formats):
             except ValueError:
                 want = ("fail",)
             try:
-                got = fg.parse(start, full)
+                got = run_entry(ix, f"{FP_MOD}.{'parse_format' if start == start_f else 'parse_named_format'}", fg, "FormatParsers", full, fenv)
+                if got[0] == "uninterpretable":
+                    raise Uninterpretable(got[1])
+                if got[0] == "fail":
+                    got = ("fail", 0)
             except Uninterpretable as ex:
                 badf.setdefault(f"grammar not interpretable: {ex}"[:100], full)
                 continue
@@ -1133,7 +1247,7 @@ def rule_grammar_semantics(ctx, ix, printed, printed_formats):
             if got[0] == want[0] and (got[0] == "fail" or got[1] == want[1]):
                 nf_ok += 1
             elif got[0] == "raise":
-                badf.setdefault(f"a converter raises {got[1]} inside the parser", full)
+                badf.setdefault(f"parsing raises {got[1]} instead of returning a format or a typed failure", repr(full))
             else:
                 badf.setdefault("format text read differently from the reference reading", f"`{full}` -> {got} (expected {want})")
     for why, ex in badf.items():
